@@ -3,6 +3,7 @@ import re
 from analysis.mir import Body, CallGraph, callee_name, callee_id, op_place, op_local, op_const
 from analysis import ordering as od
 from analysis import ctrl
+from analysis.inline import inlined
 from analysis.nondet import root_local, receiver_fields
 
 
@@ -23,7 +24,7 @@ def find_orderers(F, cg):
             ftys = [fl["ty"]["s"] for fl in adt["variants"][0]["fields"]]
             if not any(re.match(r"std::vec::Vec<", t) for t in ftys) or not any("HashSet<" in t for t in ftys):
                 continue
-            b = Body(f)
+            b = Body(inlined(F, f, same_impl=True))
             pushes = od.field_calls(b, r"Vec::<.*>::push$")
             if pushes:
                 res.append((f, b, set(comp)))
